@@ -268,7 +268,8 @@ def family_chain3(wrapper):
         for dbody in ('\\zzB{#1}{#1}', '\\zzB#1', '\\zzB{\\zzK}#1', '{\\zzB#1{y}}'):
             ddef = '\\gdef\\zzD(#1){d' + dbody + '}'
             for arg in ('ab', '{ab}', 'a{b}', '{a}{b}', '\\zzK c'):
-                yield PRE + adef + wrap(wrapper, bdef + ddef + '\\zzD(' + arg + ')') + ':\\zzD(pq)', 1
+                after = ':\\zzD(pq)' if wrapper in ('top', 'arg') else ':'     # \\zzB is local to the wrapper group
+                yield PRE + adef + wrap(wrapper, bdef + ddef + '\\zzD(' + arg + ')') + after, 1
 
 
 def family_expandafter(wrapper):
